@@ -5,5 +5,5 @@ cd "$(dirname "$0")"
 rm -rf gen && mkdir gen && cd gen
 coqc -Q ../../coq/theories RQ ../../coq/Extract.v > extract.log 2>&1 || { cat extract.log; exit 1; }
 cp ../driver.ml .
-ocamlfind ocamlopt -w -a -I . $(ocamlfind ocamldep -sort *.mli *.ml) -o ../driver 2> build.log || { tail -30 build.log; exit 1; }
+ocamlfind ocamlopt -package str -linkpkg -w -a -I . $(ocamlfind ocamldep -sort *.mli *.ml) -o ../driver 2> build.log || { tail -30 build.log; exit 1; }
 echo "driver built"
